@@ -26,6 +26,7 @@ class QuotientWorld(Scenario):
 
     # ------------------------------------------------------------------ generation
     def gen_config(self, rng):
+        seams.SURROGATE_OK = True  # same key universe as in setup(): the default-hash variant hashes the keys here
         q = rng.weighted([(5, 3), (4, 4), (2, 5), (1, 6)])
         r = 32 - q
         # remainder pool: small values, values with high bits (they become quotient bits after a resize)
@@ -85,16 +86,31 @@ class QuotientWorld(Scenario):
         elif rng.chance(1, 5):
             # full-table pressure: a small table that cannot grow and a universe of 2-4x its size, so that the run
             # spends its time around 100 % load (whole-table clusters, removal without any empty slot)
-            q = rng.choice((3, 3, 4))
+            q = rng.choice((3, 3, 4)) if not (self.allow_big and rng.chance(1, 12 if tier == "thorough" else 40)) else 9
             r = 32 - q
             size = 1 << q
             uni = set()
-            few = rng.chance(1, 2)  # few distinct quotients -> one cluster wrapping the whole table
+            few = rng.chance(1, 2) or q == 9  # few distinct quotients -> one cluster wrapping the whole table
             quos = [rng.below(size) for _ in range(rng.between(1, 3))] if few else list(range(size))
-            while len(uni) < size * rng.between(2, 4):
-                uni.add((rng.choice(quos) << r) | rng.below(64))
-            cfg.update({"q": q, "auto_expand": False, "avoid_full": False, "uni": sorted(uni), "pressure": True,
-                        "steps": self.max_steps})
+            if q == 9:
+                # one cluster that wraps the whole table and starts above slot 256
+                quos = [size - 1 - rng.below(200)] + ([] if rng.chance(1, 2) else [rng.below(60)])
+            while len(uni) < (size * rng.between(2, 4) if q != 9 else size + 40):
+                uni.add((rng.choice(quos) << r) | rng.below(64 if q != 9 else 4096))
+            uni = sorted(uni)
+            if q == 9:
+                # s surplus hashes at quotient q1 (> 256), s quotients without any hash right before q1, exactly one
+                # hash for every other quotient: filling all of them gives ONE cluster that starts at q1, wraps around
+                # the whole table, and in which every other run is displaced by up to s slots; spares come last
+                q1 = size - 1 - rng.below(200)
+                sgap = rng.between(1, 3)
+                gaps = {(q1 - 1 - j) % size for j in range(sgap)}
+                core = [(quo << r) | rng.below(4096) for quo in range(size) if quo not in gaps]
+                core += [(q1 << r) | (5000 + j) for j in range(sgap)]
+                spares = [(rng.below(size) << r) | (9000 + j) for j in range(24)]
+                uni = core + spares
+            cfg.update({"q": q, "auto_expand": False, "avoid_full": False, "uni": uni, "pressure": True,
+                        "steps": self.max_steps if q != 9 else 14, "keyed": cfg["keyed"] and q != 9, "big9": q == 9})
         return cfg
 
     def gen_step(self, rng):
@@ -106,6 +122,13 @@ class QuotientWorld(Scenario):
         r = rng.below(100)
         present = sorted(self.model)
         api = "key" if cfg["keyed"] and rng.chance(1, 2) else "alt"
+        if cfg.get("big9"):
+            if len(present) < self.f.size - 2:
+                return {"op": "bulk", "is": list(range(U))}  # fill the table completely (the full-table guard stops it)
+            if rng.chance(2, 3):
+                h = rng.choice(present)
+                return {"op": "remove", "i": cfg["uni"].index(h), "api": "alt"}
+            return {"op": "add", "i": rng.below(U), "api": "alt"}
         if not present and not cfg.get("big") and rng.chance(1, 4):
             # merge into an EMPTY receiver (same or other quotient), then both filters go on living
             return {"op": "merge", "q": self.f.quotient if rng.chance(2, 3) else rng.between(3, 6),
@@ -155,6 +178,7 @@ class QuotientWorld(Scenario):
     def setup(self, cfg):
         from probables import QuotientFilter
 
+        seams.SURROGATE_OK = True  # the table-lookup strategy and the default FNV both work on any str
         self.cfg = cfg
         self.n_gen = 0
         self.ls = seams.line_seam()
